@@ -56,13 +56,60 @@ inductive DefErr where
   | unsupported (what : String)   -- outside the modelled fragment (e.g. non-positive multiplier)
 deriving Repr, DecidableEq
 
-/-- the offset test exactly as written: `not offset.strip().isnumeric() or int(offset) != 0` -/
+/-! ### the offset test: `float(offset) != 0`
+
+    CPython's `float(text)` for ASCII text: surrounding white space is stripped; `[sign] inf | infinity | nan` in any
+    case; otherwise a decimal literal `[sign] (digits [. [digits]] | . digits) [(e|E) [sign] digits]` in which single
+    underscores may stand between two digits (`1_0`, PEP 515); anything else raises `ValueError`. The decimal literal is
+    read by `Decimal.parse` (exact value); the result of `float` is the binary64 number nearest to that value (ties to
+    even), which is zero exactly when `|value| ≤ 2^-1075` (half of the smallest subnormal; the tie goes to the even
+    neighbour 0) - `roundsToZero`.
+    Outside this reading: non-ASCII decimal digits and non-ASCII / VT / FF white space, which `float()` also accepts
+    (`float('٠') == 0.0`); the model answers `ValueError` there. None of them is a lexical form of `xsd:decimal`, the
+    type the RELAX NG schema gives the attribute, so no such text reaches the function through `load_model`. -/
+
+/-- what `float(text)` returns, before rounding -/
+inductive FloatText where
+  | nan
+  | inf
+  /-- a decimal literal and its exact value -/
+  | dec (q : Rat)
+deriving Repr, DecidableEq
+
+/-- PEP 515: every `_` stands between two digits (`prev` = the character before the list) -/
+def underscoresOk : Char → List Char → Bool
+  | _, [] => true
+  | prev, c :: r =>
+    if c == '_' then prev.isDigit && (r.head?.map Char.isDigit).getD false && underscoresOk c r
+    else underscoresOk c r
+
+/-- CPython `float(text)`; `none` = `ValueError` -/
+def floatText (s : String) : Option FloatText :=
+  match Decimal.parse s with
+  | some q => some (.dec q)
+  | none =>
+    let t := Decimal.trimList s.toList
+    let u := (match t with
+      | '-' :: r => r
+      | '+' :: r => r
+      | r => r).map Char.toLower
+    if u == "inf".toList || u == "infinity".toList then some .inf
+    else if u == "nan".toList then some .nan
+    else if t.contains '_' && underscoresOk ' ' t then
+      (Decimal.parse (String.ofList (t.filter (· != '_')))).map .dec
+    else none
+
+/-- the binary64 number nearest to `q` (ties to even) is zero: `|q| ≤ 2^-1075` -/
+def roundsToZero (q : Rat) : Bool := decide (q.num.natAbs * 2 ^ 1075 ≤ q.den)
+
+/-- the offset test exactly as written: `float(offset) != 0` (`ValueError` from `float` refuses the offset as well;
+    `nan != 0` and `inf != 0` hold) -/
 def offsetRejected (o : String) : Bool :=
-  let t := Decimal.trimList o.toList
-  if t.isEmpty || !(t.all Char.isDigit) then true
-  else match Decimal.digitsToNat t with
-    | some n => n != 0
-    | none => true
+  match floatText o with
+  | none => true
+  | some .nan => true
+  | some .inf => true
+  | some (.dec q) => !roundsToZero q
 
 /-- power of ten of a prefix attribute: a table name, else an integer -/
 def prefixPower (p : String) : Option Int :=
